@@ -112,7 +112,8 @@ def run_A(prop, modname, tier, seed, kmodname=None):
                 "satisfying its path condition); paths are distinct by construction of the path tree; "
                 "counted by CrossHair's num_paths statistic summed over conditions",
         "samples": samples,
-        "exhaustive": bool(records) and all(r["exhaustive"] for r in records.values()),
+        "exhaustive": bool(records) and all(
+            r["exhaustive"] or str(r["verdict"]).startswith("known-finding") for r in records.values()),
         "conditions": records,
         "conditions_confirmed": len(confirmed),
         "conditions_total": len(records),
